@@ -99,6 +99,16 @@ def pad_with_free(data: bytes) -> bytes:
     return res
 
 
+def strip_sidx(data: bytes) -> bytes:
+    """The same media without its top-level sidx boxes (a packager that writes styp + moof + mdat per fragment): offsets inside the
+    fragments are relative to their moof and stay valid."""
+    p = Parsed(data)
+    res = b''.join(data[b.pos:b.pos + b.size] for b in p.top if b.name != 'sidx')
+    if not Parsed(res).well_formed() or len(res) == len(data):
+        raise ValueError('no sidx boxes removed, or the result is malformed')
+    return res
+
+
 def renumber_mfhd(data: bytes, first: int = 1, step: int = 2) -> bytes:
     """The same media with the movie-fragment sequence numbers of the stored fragments rewritten to first, first+step, ...
     (what is left over when one track is cut out of a two-track multiplex); nothing else changes."""
